@@ -75,6 +75,16 @@ func (s *StreamStats) RMS() float64 {
 // Combine updates s's statistics as if all samples added to o were
 // added to s.
 func (s *StreamStats) Combine(o *StreamStats) {
+	if o.Count == 0 {
+		// Nothing to add. o's Min and Max are not meaningful.
+		return
+	}
+	if s.Count == 0 {
+		// s's Min, Max, and means are not meaningful.
+		*s = *o
+		return
+	}
+
 	count := s.Count + o.Count
 
 	// Compute combined online variance statistics
